@@ -207,24 +207,72 @@ def _flips_case(st, X, module):
 
 
 def case_fallback(ctx, d2):
+    """decided per path: the label that indexes the new indexer is the source label itself where `label in phases` holds, and the
+    case-flipped label (in the direction the isupper()/islower() test taken on the path dictates) only where it does not"""
+    from ..pathcond import resolved_conds, implied as _imp
     prog = ctx.prog
     sites = [('ChemicalIndexer', 'to_material_indexer', IX), ('MaterialIndexer', 'to_material_indexer', IX)]
     for cname, mname, rel in sites:
         f = prog.method(cname, mname, rel=rel)
-        found = False
+        cons = '%s.%s' % (cname, mname)
         pp = f.params[1]
-        for n in walk_no_nested(f.node):
-            if isinstance(n, ast.If) and isinstance(n.test, ast.Compare) and isinstance(n.test.ops[0], ast.NotIn) \
-                    and isinstance(n.test.left, ast.Name) and src(n.test.comparators[0]) == pp:
-                X = n.test.left.id
-                okk = not n.orelse and len(n.body) == 1 and _flips_case(n.body[0], X, f.module)
-                found = True
-                if okk:
-                    d2.ok('%s.%s' % (cname, mname), 'label is case-flipped only when the exact label is absent from the target phases', f, n)
-                else:
-                    d2.fail('%s.%s' % (cname, mname), 'fallback-shape', 'the case fallback is not (flip only when the exact label is absent)', f, n)
-        if not found:
-            d2.fail('%s.%s' % (cname, mname), 'no-fallback-guard', 'phase label is remapped without testing that the exact label is absent', f, f.node)
+        fresh = {t.id for n in walk_no_nested(f.node) if isinstance(n, ast.Assign) and isinstance(n.value, ast.Call) and src(n.value.func).endswith('.blank')
+                 for t in n.targets if isinstance(t, ast.Name)}
+        ps, _ = run_paths(f.node, max_paths=2000)
+        n_use = 0
+        bad = None
+        for p in ps:
+            if p.raised:
+                continue
+            rc = resolved_conds(p, keep=set(f.params))
+            for e in p.events:
+                m_ = None
+                # the subscripted object is the indexer built by <...>.blank(...) in this function (the local is resolved to that call)
+                nd_ = e.node.func.value if (e.kind == 'call' and isinstance(e.node, ast.Call) and isinstance(e.node.func, ast.Attribute)) else e.node
+                if not (isinstance(nd_, ast.Subscript) and isinstance(nd_.value, ast.Name) and nd_.value.id in fresh):
+                    continue
+                if e.kind == 'call':
+                    m_ = re.match(r'^(.+)\[([^\[\]]+)\]\.\w+$', e.target)
+                elif e.kind in ('augstore', 'store'):
+                    m_ = re.match(r'^(.+)\[([^\[\]]+)\]$', e.target)
+                if not m_:
+                    continue
+                n_use += 1
+                L = m_.group(2)
+                flip = None
+                for suf in ('.lower()', '.upper()', '.swapcase()'):
+                    if L.endswith(suf):
+                        flip, B = suf, L[:-len(suf)]
+                if flip is None:
+                    B = L
+
+                def side(x):
+                    t = src(x)
+                    return t == B or p.lin.text(x) == B if hasattr(p.lin, 'text') else t == B
+
+                def both(pos, neg):
+                    a = _imp(rc, pos)
+                    if a is not None:
+                        return a
+                    b = _imp(rc, neg)
+                    return None if b is None else not b
+                present = both(lambda t: isinstance(t, ast.Compare) and len(t.ops) == 1 and isinstance(t.ops[0], ast.In) and src(t.left) == B and src(t.comparators[0]) == pp,
+                               lambda t: isinstance(t, ast.Compare) and len(t.ops) == 1 and isinstance(t.ops[0], ast.NotIn) and src(t.left) == B and src(t.comparators[0]) == pp)
+                upper = both(lambda t: isinstance(t, ast.Call) and isinstance(t.func, ast.Attribute) and t.func.attr == 'isupper' and src(t.func.value) == B,
+                             lambda t: isinstance(t, ast.Call) and isinstance(t.func, ast.Attribute) and t.func.attr == 'islower' and src(t.func.value) == B)
+                if flip is None:
+                    if present is not True:
+                        bad = bad or ('no-fallback-guard', 'phase label is remapped without testing that the exact label is absent', e.stmt)
+                elif present is not False:
+                    bad = bad or ('no-fallback-guard', 'phase label is remapped without testing that the exact label is absent', e.stmt)
+                elif (flip == '.lower()' and upper is not True) or (flip == '.upper()' and upper is not False):
+                    bad = bad or ('fallback-shape', 'the case fallback is not (flip only when the exact label is absent)', e.stmt)
+        if not n_use:
+            d2.fail(cons, 'no-fallback-guard', 'phase label is remapped without testing that the exact label is absent', f, f.node)
+        elif bad:
+            d2.fail(cons, bad[0], bad[1], f, bad[2])
+        else:
+            d2.ok(cons, 'label is case-flipped only when the exact label is absent from the target phases (%d uses on all paths)' % n_use, f)
     # distinct source phases can fold onto one target row (l and L -> l): the fold must be additive into a blank indexer
     f = prog.method('MaterialIndexer', 'to_material_indexer', rel=IX)
     blank = [n for n in walk_no_nested(f.node) if isinstance(n, ast.Assign) and isinstance(n.targets[0], ast.Name) and '.blank(' in src(n.value)]
